@@ -2069,7 +2069,13 @@ func (h *fsmHandler) established(ctx context.Context) (bgp.FSMState, *fsmStateRe
 		// from which it has not received the "N" bit.
 		if conf.GracefulRestart.State.NotificationEnabled {
 			if m.Body.(*bgp.BGPNotification).ErrorCode == bgp.BGP_ERROR_CEASE && bgp.ShouldHardReset(m.Body.(*bgp.BGPNotification).ErrorSubcode, false) {
-				return bgp.NewBGPNotificationMessage(m.Body.(*bgp.BGPNotification).ErrorCode, bgp.BGP_ERROR_SUB_HARD_RESET, m.Body.(*bgp.BGPNotification).Data)
+				// RFC 8538 3.1: the data of a Hard Reset is the NOTIFICATION
+				// it stands for: ErrCode, Subcode, Data
+				b := m.Body.(*bgp.BGPNotification)
+				data := make([]byte, 0, 2+len(b.Data))
+				data = append(data, b.ErrorCode, b.ErrorSubcode)
+				data = append(data, b.Data...)
+				return bgp.NewBGPNotificationMessage(b.ErrorCode, bgp.BGP_ERROR_SUB_HARD_RESET, data)
 			}
 		}
 		return m
